@@ -122,6 +122,8 @@ Crash == /\ pc \in {"rolling", "fresh"} /\ G > 1
 WellFormed == /\ ex \subseteq 0..G-1
               /\ \A g \in 0..G-1 : g \notin ex => files[g] = <<>>
               /\ kind = "simple" => ex \subseteq {0}
+\* without crashes the existing generations are 0..n (no gaps), so as many generations as possible are kept
+NoGaps == crashes = 0 /\ pc \notin {"rolling", "fresh"} => \A g \in ex : g = 0 \/ (g-1) \in ex
 \* the generations from oldest to newest are the most recent messages, complete and in order
 Retained == EndsWith(RetainedSeq, written)
 \* no generation exceeds its limit (a single message longer than the limit cannot be avoided)
@@ -135,9 +137,10 @@ Exceeds(c, len) == CASE kind = "counted" -> Len(c) + 1 > limit
                      [] OTHER -> FALSE
 NoEarlyRoll == crashes = 0 =>
                  \A g \in 1..G-1 : g \in ex /\ files[g-1] # <<>> => Exceeds(files[g], files[g-1][1].len)
-\* messages leave the retained window only as a whole oldest generation and only when all G exist
+\* messages leave the retained window only as the whole generation G-1 (without crashes that is:
+\* only when all G generations exist)
 StepOK == LET r == RetainedSeq  r2 == RetainedOf(files')
-              drop == IF Cardinality(ex) = G THEN {<<>>, files[G-1]} ELSE {<<>>}
+              drop == IF (G-1) \in ex THEN {<<>>, files[G-1]} ELSE {<<>>}
               add == IF written' = written THEN <<>> ELSE <<written'[Len(written')]>>
           IN \E d \in drop : d \o r2 = r \o add
 DropsOnlyOldest == [][StepOK]_vars
